@@ -331,6 +331,8 @@ def oracle_public(ctx, count):
         if cplx:
             u = np.exp(1j * np.array([rng.uniform(0, 6) for _ in range(n)]))
             A = sp.csr_array(sp.diags_array(u) @ A @ sp.diags_array(u.conj()))
+        if cplx and it % 4 == 2:
+            A = sp.csr_array(1j * A)          # a complex matrix whose diagonal is purely imaginary (nonzero all the same)
         A = sp.csr_array(A.astype(dt))
         scaled = it % 7 == 5
         if scaled:
@@ -508,6 +510,34 @@ def oracle_public(ctx, count):
                 for i in range(n):
                     if D[i, i] == 0 and y[i] != x[i]:
                         ctx.fail('relaxation.%s/zero-diagonal-row-changed' % name, 'row %d' % i, case)
+        # the values of ONE matrix object changed in place between two calls (an assembly loop, a continuation in a parameter): the
+        # second call relaxes with the new values (point and normal-equation methods; the block / Schwarz methods cache by design)
+        if fmt == 'csr' and its > 0 and it % 3 == 0:
+            R2 = R
+            for name2, f2, ref2 in (('gauss_seidel_ne', lambda M_, y: R2.gauss_seidel_ne(M_, y, b, iterations=1, sweep='forward', omega=om),
+                                     lambda D_, y: ref_gs_ne(D_, y, b, orders('forward', n)[0], om)),
+                                    ('gauss_seidel_nr', lambda M_, y: R2.gauss_seidel_nr(M_, y, b, iterations=1, sweep='forward', omega=om),
+                                     lambda D_, y: ref_gs_nr(D_, y, b, orders('forward', n)[0], om)),
+                                    ('jacobi_ne', lambda M_, y: R2.jacobi_ne(M_, y, b, iterations=1, omega=om), lambda D_, y: ref_jacobi_ne(D_, y, b, om)),
+                                    ('jacobi', lambda M_, y: R2.jacobi(M_, y, b, iterations=1, omega=om), lambda D_, y: ref_jacobi(D_, y, b, range(n), om)),
+                                    ('gauss_seidel', lambda M_, y: R2.gauss_seidel(M_, y, b, iterations=1, sweep='forward'),
+                                     lambda D_, y: ref_gs(D_, y, b, orders('forward', n)[0]))):
+                Aobj = A_master.copy()
+                y1 = x.copy()
+                case2 = dict(base, method=name2, sequence='call, A.data *= 3 in place, call')
+                try:
+                    f2(Aobj, y1)
+                    Aobj.data *= dt(3.0)
+                    y2 = x.copy()
+                    f2(Aobj, y2)
+                except Exception as e:   # noqa
+                    ctx.fail('relaxation.%s/raises' % name2, repr(e), case2)
+                    continue
+                ctx.count('oracle:values-changed-in-place')
+                want2 = ref2(3.0 * D, x.copy())
+                if not close(y2, want2, tol):
+                    ctx.fail('relaxation.%s/stale-after-in-place-change' % name2, 'second call on the same matrix object after A.data *= 3: result differs from the formula for the new values by %.3g'
+                             % np.linalg.norm(y2 - want2), case2)
         # exact solution is a fixed point
         if diag == 'all' and np.linalg.cond(D) < 1e6:
             xs = np.linalg.solve(D.astype(np.complex128 if cplx else np.float64), b).astype(dt)
